@@ -315,9 +315,59 @@ def exits_digest(f):
     return out
 
 
+def _count_test(cond, fn):
+    """(accessor name, True when the condition being true means 'no error counted') for a test of an error count, read through
+    an accessor call or through a local initialised from one; None otherwise"""
+    c = strip(cond)
+    if c is None:
+        return None
+
+    def accessor(e):
+        e = strip(e)
+        if e is None:
+            return None
+        if e["k"] == "CallExpr" and (e.get("callee") or "").startswith("comsgError"):
+            return e.get("callee")
+        if e["k"] == "DeclRefExpr":
+            vals = []
+            for x in walk(fn["body"]):
+                if x["k"] == "DeclStmt":
+                    vals += [d["init"] for d in x.get("decls", []) if d["n"] == e["n"] and d.get("init") is not None]
+                elif x["k"] == "BinaryOperator" and x["op"] == "=" and (strip(x["c"][0]) or {}).get("n") == e["n"]:
+                    vals.append(x["c"][1])
+            accs = set(accessor(v) for v in vals)
+            if len(vals) >= 1 and len(accs) == 1 and None not in accs:
+                return accs.pop()
+        return None
+    a = accessor(c)
+    if a:
+        return a, False                              # if (count) ...
+    if c["k"] == "UnaryOperator" and c["op"] == "!":
+        a = accessor(c["c"][0])
+        return (a, True) if a else None
+    if c["k"] == "BinaryOperator" and c["op"] in ("!=", ">", "==") and const_value(c["c"][1]) == 0:
+        a = accessor(c["c"][0])
+        return (a, c["op"] == "==") if a else None
+    return None
+
+
 def _error_guarded(fn, call):
-    """the success exit is immediately preceded, in the same block, by `if (comsgErrorCount() != 0) exitFailure();`"""
+    """the success exit is reached only when an error count is zero: it is immediately preceded, in the same block, by
+    `if (count != 0) exitFailure();`, or it sits on the zero side of a test of the count.  Returns the accessor read."""
     par = common.parents(fn["body"])
+    # (b) on the zero side of an enclosing test
+    cur = call
+    while cur["id"] in par:
+        p_ = par[cur["id"]]
+        if p_["k"] == "IfStmt":
+            t = _count_test(p_["c"][0], fn)
+            if t is not None:
+                in_then = any(y is cur for y in walk(p_["c"][1]))
+                in_else = len(p_["c"]) > 2 and p_["c"][2] is not None and any(y is cur for y in walk(p_["c"][2]))
+                if (in_then and t[1]) or (in_else and not t[1]):
+                    return t[0]
+        cur = p_
+    # (a) preceded by the failing exit
     ch, p = call, par.get(call["id"])
     while p is not None and p["k"] != "CompoundStmt":
         ch, p = p, par.get(p["id"])
@@ -331,12 +381,10 @@ def _error_guarded(fn, call):
         return False
     for prev in reversed(sts[:i]):
         if prev["k"] == "IfStmt" and prev["c"][2] is None:
-            c = strip(prev["c"][0])
-            tested = [y.get("callee") for y in calls(prev["c"][0]) if (y.get("callee") or "").startswith("comsgError")]
-            nz = c is not None and (c["k"] == "CallExpr" or (c["k"] == "BinaryOperator" and c["op"] in ("!=", ">") and const_value(c["c"][1]) == 0))
+            t = _count_test(prev["c"][0], fn)
             leaves = any(y.get("callee") == "exitFailure" for y in calls(prev["c"][1]))
-            if tested and nz and leaves:
-                return tested[0]           # the counter accessor the guard reads
+            if t is not None and not t[1] and leaves:
+                return t[0]           # the counter accessor the guard reads
         if prev["k"] not in ("NullStmt", "DeclStmt"):
             break
     return False
@@ -951,13 +999,27 @@ def run(tier, only=None):
     f_comsg = common.extract("comsg.c", all_trees=True, all_cfg=True)
     allowed = {"comsgVError": {"post++", "++"}, "comsgVFatal": {"post++", "++"}, "comsgInit": {"="}}
     nwr = 0
+    # a straight-line local helper that only counts (`nErrors++; ...`) and is called from the two counting entry points only is
+    # the increment itself, written once
+    inc_helpers = set()
+    for name, fn in f_comsg.funcs.items():
+        if "body" not in fn or name in allowed or not fn.get("static"):
+            continue
+        ws = writes_of(fn, "nErrors")
+        flow = [x for x in walk(fn["body"]) if x["k"] in ("IfStmt", "ForStmt", "WhileStmt", "SwitchStmt", "DoStmt", "ConditionalOperator")]
+        if ws and all(op in ("++", "post++") for op, _ in ws) and not flow:
+            callers = set(g for g, gf in f_comsg.funcs.items() if "body" in gf and any(c.get("callee") == name for c in calls(gf["body"])))
+            if callers and callers <= {"comsgVError", "comsgVFatal"}:
+                inc_helpers.add(name)
     for name, fn in f_comsg.funcs.items():
         if "body" not in fn:
             continue
+        if inc_helpers and name in ("comsgVError", "comsgVFatal"):
+            nwr += sum(1 for c in calls(fn["body"]) if c.get("callee") in inc_helpers)
         for op, node in writes_of(fn, "nErrors"):
             nwr += 1
             key = "writer:%s:%s" % (name, op)
-            ok = name in allowed and op in allowed[name]
+            ok = name in allowed and op in allowed[name] or name in inc_helpers
             if ok and name == "comsgInit" and const_value(node["c"][1]) != 0:
                 ok = False
             if ok:
@@ -970,7 +1032,8 @@ def run(tier, only=None):
     for name in ("comsgVError", "comsgVFatal"):
         fn = f_comsg.func(name)
         cfg = common.CFG(fn)
-        is_inc = lambda n: n["k"] == "UnaryOperator" and n["op"] in ("++", "post++") and strip(n["c"][0]).get("n") == "nErrors"
+        is_inc = lambda n: (n["k"] == "UnaryOperator" and n["op"] in ("++", "post++") and strip(n["c"][0]).get("n") == "nErrors") or \
+            (n["k"] == "CallExpr" and n.get("callee") in inc_helpers)
         tagname = "COMSG_ERROR" if name == "comsgVError" else "COMSG_FATAL"
 
         def is_do(n, tagname=tagname):
